@@ -277,6 +277,20 @@ def run(ctx):
                       key=('S3', 'delete-still-tracked', c.name), site=ctx.site(ir, c.node))
     ctx.floor('S3 removal of the CHILD_SA whose deletion was answered', nd, 2, rule='S3')
 
+    # "no deadlock": whatever crossed on the wire, a lost message is repaired by the ordinary machinery - the responder answers the
+    # repetition of the request it answered last from its cache (also request 0 of a rekeyed IKE_SA), shared with C08 M1; and every
+    # request - the follow-up of a collision included - starts with a retry budget of its own, whatever the exchange before it used up
+    from .c08 import window
+    tables = [set(t.qual for t in common.handler_table(ctx, f).values()) for f in ('_process_request', '_process_response')]
+    is_handler = lambda call, r: r.kind == 'dyn' and bool(r.targets) and any(   # noqa: E731
+        set(t.qual for t in r.targets) <= tb for tb in tables)
+    window(ctx, 'S2', ctx.func('ikesa.IkeSa._process_request'), 'peer_msg_id', is_handler, 'last_sent_response_data')
+    snd = ctx.func('ikesa.IkeSa._send_request')
+    SN = ctx.sval(snd)
+    cnt = SN.final('self.retransmissions')
+    ctx.check(cnt is not None and cnt[0] == 'const' and isinstance(cnt[2], int), 'S2',
+              'every request sent starts with the same retry counter, whatever the previous exchange left behind', key=('S2', 'fresh-budget'),
+              site=ctx.site(snd, snd.node), detail={'retransmissions after _send_request': tq.text(cnt, 200) if cnt else None})
     # S3 (2.8 / 2.25.2): while an IKE_SA rekey is outstanding the old IKE_SA keeps serving CHILD_SA exchanges, so the
     # CHILD_SAs are inherited by the successor at the moment the rekey commits - not when it is requested - or the
     # exchanges that collide with the rekey leave the successor with a stale list
